@@ -546,7 +546,15 @@ impl Expr {
 				let mut right_expressions = vec![];
 				while let Some(op_pair) = expr.next() {
 					let op = BoolOp::bool_op_from_rule(op_pair);
-					let mut right_pair = expr.next().unwrap().into_inner();
+					let right_pair = expr.next().unwrap();
+					if let Rule::bool_expr_single = right_pair.as_rule() {
+						// A whole comparison (or parenthesised expression) on the right of && / ||
+						let right = Self::from_rule(right_pair);
+						right_expressions.push((op,false,Box::new(right)));
+						continue
+					}
+					// A lone value, possibly negated
+					let mut right_pair = right_pair.into_inner();
 					let mut right_expr = right_pair.next().unwrap();
 					let mut right_negated = false;
 					if let Rule::not = right_expr.as_rule() {
